@@ -628,6 +628,32 @@ func TestC05(t *testing.T) {
 			run.Violation(id, r.Key, r.What, w)
 		}
 	}
+	// scripted: members leave and their names come back - one from its old address, one from another one - while
+	// metadata changes; then the usual settling
+	for k, pv := range []int{5, 2} {
+		id := fmt.Sprintf("scripted/leave-and-return/%d", k)
+		if !run.Mine(k+1) || !run.Want(id) {
+			continue
+		}
+		run.Journal(id, "")
+		sc := faultScn{N: 5, PV: pv, Indirect: 2, TCPPing: k == 0, PushPull: 4 * time.Second, DeadTime: 30 * time.Second, TStop: 90 * time.Second,
+			Actions: []faultAction{{At: 4 * time.Second, Kind: "leave", A: 1}, {At: 6 * time.Second, Kind: "leave", A: 2}, {At: 9 * time.Second, Kind: "update", A: 0},
+				{At: 25 * time.Second, Kind: "rejoin", A: 1, P: 1}, {At: 30 * time.Second, Kind: "rejoin", A: 2}, {At: 40 * time.Second, Kind: "update", A: 1}, {At: 50 * time.Second, Kind: "update", A: 2}}}
+		var o c05Outcome
+		err := Bubble(t, func() { o = runC05(run, run.Seed()+79+int64(k), sc, rand.New(rand.NewSource(run.Seed()+int64(k)))) })
+		if err != nil {
+			o.Results = append(o.Results, &c01Result{"C05/bubble", err.Error()})
+		}
+		run.Eval(1)
+		run.Cell("scripted", "leave-and-return")
+		for _, r := range o.Results {
+			w := map[string]any{"scenario": sc}
+			for kk, v := range o.Witness {
+				w[kk] = v
+			}
+			run.Violation(id, r.Key, r.What, w)
+		}
+	}
 	run.Count("judged", int64(judged))
 	run.Count("skipped_not_connected", int64(skipped))
 	if !run.Replaying() {
